@@ -551,6 +551,14 @@ class Unifier:
                     z.add(canon(x, self.ctx))
                     if isinstance(x, ast.Call) and norm(x.func) == "len" and len(x.args) == 1:
                         z.add(canon(x.args[0], self.ctx))
+                        x = x.args[0]
+                    # an empty decoded table is an empty collection of runs: the table of E has one row per element of E
+                    if isinstance(x, ast.Attribute) and x.attr == "size":
+                        x = x.value
+                        z.add(canon(x, self.ctx))
+                    if isinstance(x, ast.Call) and norm(x.func) == "__table__" and len(x.args) == 1:
+                        z.add(canon(x.args[0], self.ctx))
+                        z.add(canon(ast.Call(func=N("len"), args=[x.args[0]], keywords=[]), self.ctx))
         return z
 
     def empty_under(self, t, zeros, side):
